@@ -706,6 +706,31 @@ def pymod(a, b):
     return a - b * pyfloordiv(a, b)
 
 
+#: when True, products / quotients of two NON-CONSTANT reals become
+#: applications of uninterpreted functions (keeps queries in QF_UFLRA; used
+#: by harnesses that only compare terms, e.g. non-interference checks)
+UF_NONLINEAR = False
+_UMUL = z3.Function("umul", z3.RealSort(), z3.RealSort(), z3.RealSort())
+_UDIV = z3.Function("udiv", z3.RealSort(), z3.RealSort(), z3.RealSort())
+
+
+def _isnumeral(e):
+    return z3.is_rational_value(e) or z3.is_int_value(e) or \
+        z3.is_rational_value(z3.simplify(e))
+
+
+def rmul(a, b):
+    if UF_NONLINEAR and not _isnumeral(a) and not _isnumeral(b):
+        return _UMUL(a, b)
+    return a * b
+
+
+def rdiv(a, b):
+    if UF_NONLINEAR and not _isnumeral(b):
+        return _UDIV(a, b)
+    return a / b
+
+
 class SReal:
     """exact real number (floats modelled as reals; no rounding)"""
 
@@ -739,16 +764,16 @@ class SReal:
         return s._r(o, lambda a, b: a - b)
 
     def __mul__(s, o):
-        return s._b(o, lambda a, b: a * b)
+        return s._b(o, rmul)
 
     def __rmul__(s, o):
-        return s._r(o, lambda a, b: a * b)
+        return s._r(o, rmul)
 
     def __truediv__(s, o):
-        return s._b(o, lambda a, b: a / b)
+        return s._b(o, rdiv)
 
     def __rtruediv__(s, o):
-        return s._r(o, lambda a, b: a / b)
+        return s._r(o, rdiv)
 
     def __pow__(s, o):
         if isinstance(o, int) and 0 <= o <= 6:
@@ -864,13 +889,16 @@ class SFloat:
         return s._r(o, lambda a, b: a - b)
 
     def __mul__(s, o):
-        return s._b(o, lambda a, b: a * b)
+        return s._b(o, rmul)
 
     def __rmul__(s, o):
-        return s._r(o, lambda a, b: a * b)
+        return s._r(o, rmul)
 
     def __neg__(s):
         return SFloat(s.nan, -s.v)
+
+    def __abs__(s):
+        return SFloat(s.nan, z3.If(s.v < 0, -s.v, s.v))
 
     def __truediv__(s, o):
         try:
@@ -878,7 +906,7 @@ class SFloat:
         except TypeError:
             return NotImplemented
         return SFloat(z3.Or(s.nan, o.nan, o.v == 0),
-                      s.v / z3.If(o.v == 0, z3.RealVal(1), o.v))
+                      rdiv(s.v, z3.If(o.v == 0, z3.RealVal(1), o.v)))
 
     def __rtruediv__(s, o):
         return SFloat.lift(o).__truediv__(s)
@@ -1009,7 +1037,8 @@ def ite(c, a, b):
     c = tobool(c)
     if isinstance(c, bool):
         return a if c else b
-    if isinstance(a, SFloat) or isinstance(b, SFloat):
+    if isinstance(a, SFloat) or isinstance(b, SFloat) or any(
+            isinstance(x, float) and x != x for x in (a, b)):
         a, b = SFloat.lift(a), SFloat.lift(b)
         return SFloat(z3.If(c, a.nan, b.nan), z3.If(c, a.v, b.v))
     if isinstance(a, (SBool, bool)) and isinstance(b, (SBool, bool)):
